@@ -162,8 +162,15 @@ fn check_input(inp: &Input, forms: &[usize], max_boundaries: usize, rng: &mut Rn
             }
             if let Some(kind) = kind {
                 let fam = if fclass == "comment" { if sep.contains("/*") { "block-comment" } else { "line-comment" } } else { fclass };
+                let sig = if inp.origin.starts_with("G(") {
+                    format!("c13|{kind}|{} {}|{fam}", tclass(lk, lt), tclass(rk, rt))
+                } else {
+                    // real-world modules exercise notation outside the supported-notation grammar (information objects, MACRO,
+                    // parameter lists, WITH SYNTAX bodies, ENCODING-CONTROL): one coarse signature per outcome kind and separator family
+                    format!("c13|{kind}|corpus|{fam}")
+                };
                 rep.violations.push(Violation {
-                    sig: format!("c13|{kind}|{} {}|{fam}", tclass(lk, lt), tclass(rk, rt)),
+                    sig,
                     what: format!("{} between `{lt}` and `{rt}` ({fname}): baseline {bstatus}, after re-layout {status} [{}]", kind, inp.origin),
                     replay: json!({"origin": inp.origin, "boundary": b, "form": fname, "baseline_text": base_text, "relayout_text": text,
                         "baseline": base.out.brief(), "relayout": run.out.brief()}),
@@ -285,7 +292,7 @@ fn check_multi(inp: &Input, n: usize, rng: &mut Rng, rep: &mut Report) {
             };
             let min_text = join_multi(&inp.toks, &cur);
             rep.violations.push(Violation {
-                sig: format!("c13|{kind}|{key}"),
+                sig: if inp.origin.starts_with("G(") { format!("c13|{kind}|{key}") } else { format!("c13|{kind}|corpus|multi-boundary") },
                 what: format!("{kind} after re-laying out {} boundaries (minimal set {}): baseline {bstatus}, after {status} [{}]", seps.iter().filter(|s| s.is_some()).count(), rest.len(), inp.origin),
                 replay: json!({"origin": inp.origin, "baseline_text": base_text, "relayout_text": min_text, "baseline": base.out.brief(), "relayout": run.out.brief()}),
             });
